@@ -387,6 +387,8 @@ def applyTx (w0 : World) (env : Env) (sender : Nat) (funds : Engine.Funds) (tx :
       if w.engine.cfg.native then .error (.guard 95)
       else
         let cur := Ledger.get w.ledger.allow sender
+        -- cw20-base loads the allowance record; it is removed when it reaches zero by a decrease
+        if cur = 0 then .error (.guard 93) else
         .ok { w with ledger := { w.ledger with allow := Ledger.set w.ledger.allow sender (if amt < cur then cur - amt else 0) } }
   | .tokenTransfer to amt =>
       if w.engine.cfg.native then .error (.guard 95)
